@@ -55,7 +55,8 @@ PROPS["C13"] = {
     "level": "model_checking",
     "rule": "model: heads table after every reachable history of the replica model incl. removal/re-creation; all head "
             "sets over 4 authors x timestamps {1,2,127,128} x limits around every item boundary; implementation: heads, "
-            "has_news_for_us after every step of seeded histories, encode/decode under ~9 limits per head set",
+            "has_news_for_us after every step of seeded histories, encode/decode under ~9 limits per head set; heads after every "
+            "call of seeded multi-document histories incl. removal / re-creation, reopen and the migration-001 rebuild of a dropped heads table",
     "assumptions": ["size limits >= 1 (an empty postcard vector already needs one byte)",
                     "timestamps below 2^31 in traces (TLC integers); varint length formula transcribed from postcard"],
     "models": [
@@ -73,6 +74,9 @@ PROPS["C13"] = {
          "trace_module": "ReplicaTrace", "trace_consts": dict(RANGER, Prop='"C13"')},
         {"name": "heads", "cmd": "heads", "args": {"n": {"quick": 300, "thorough": 6000}},
          "trace_module": "HeadsTrace", "trace_consts": {"EncodeKeyedByAuthor": "TRUE"}},
+        # heads across document removal / re-creation, reopen and the rebuild of the heads table by migration 001
+        {"name": "docs", "cmd": "docs", "args": {"n": {"quick": 60, "thorough": 2000}},
+         "trace_module": "DocsTrace", "trace_consts": dict(ENTRY, Prop='"C13"', PeerCap=5), "tv_timeout": 3000},
     ],
 }
 
@@ -333,7 +337,7 @@ PROPS["C09"] = {
     "rule": "framing: frames of real sessions encoded by the real encoder, concatenated and fed to the real decoder under "
             "every single cut point (stride for long streams), random multi-cuts, byte-by-byte, truncation, one oversize "
             "length prefix per frame, single-bit body corruptions, random bytes; other decoders (message, signed entry, "
-            "author heads, capability, ticket, filter): round trip + mutated encodings + random bytes; a case is one "
+            "author heads incl. authors sharing a timestamp, capability, ticket, filter): round trip + mutated encodings + random bytes; a case is one "
             "decoder call; non-trivial = every call (each has a distinct input)",
     "assumptions": ["only the framing state machine and the outcome alphabet {value, error} are specified; exhaustive "
                     "no-panic over all byte strings is NOT claimed (DESIGN.md §8) — the count of inputs actually run is reported",
@@ -436,7 +440,7 @@ PROPS["C11"] = {
 # ------------------------------------------------------------------------------------------ C06
 PROPS["C06"] = {
     "level": "fault_enumeration",
-    "rule": "model: every interleaving of <= 3 inserts (pruning and non-pruning) with transaction ageing, flush and a crash "
+    "rule": "model: every interleaving of <= 3 calls (pruning and non-pruning inserts, failing calls) with transaction ageing, flush and a crash "
             "before any table access; implementation: seeded histories (5-10 calls: local / remote inserts that prune or not, "
             "prefix deletes, peers, policies, removal, flush, snapshot reads, open/close over 2 documents); for EVERY call and "
             "EVERY table access of that call the history is re-run with the age-based commit forced right before that access, "
@@ -447,10 +451,11 @@ PROPS["C06"] = {
                     "live states are taken from a baseline run of the same deterministic history (clock pinned by hook H2)"],
     "models": [
         {"name": "storetx", "module": "MCStoreTx", "workers": 6,
-         "consts": dict(ENTRY, Universe="<- UTx", MaxCalls=3, PutAtomic="TRUE"),
-         "invariants": ["CrashStateIsBoundary", "DurableIsNormal"]},
+         "consts": dict(ENTRY, Universe="<- UTx", MaxCalls=3, PutAtomic="TRUE", FailKeepsTx="TRUE"),
+         "invariants": ["CrashStateIsBoundary", "DurableIsNormal", "LiveIsAcked"]},
     ],
-    "sensitivity": [{"base": "storetx", "flip": {"PutAtomic": "FALSE"}}],
+    "sensitivity": [{"base": "storetx", "flip": {"PutAtomic": "FALSE"}},
+                    {"base": "storetx", "flip": {"FailKeepsTx": "FALSE"}}],
     "drives": [
         {"name": "storetx", "cmd": "storetx", "args": {"n": {"quick": 14, "thorough": 400}},
          "trace_module": "StoreTxTrace", "trace_consts": dict(ENTRY), "tv_timeout": 3000, "timeout": 7200},
